@@ -470,21 +470,11 @@ class C18(Driver):
                         and R.calls[i]["name"] not in NONDET
                         and digits_masked(R.calls[i]["text"]) == digits_masked(RB.calls[i]["text"])]
             R.probe("nonnumeric_difference_ignored", len([i for i in diff if (R.calls[i]["before"] & 128)]) - len(suspects))
-            if suspects:
-                # is the value a function of the clock phase only?  two more executions under each clock
-                more_a = [self.analyse(plan, self.run_plan(plan)).calls for _ in range(2)]
-                more_b = [self.analyse(planb, self.run_plan(planb)).calls for _ in range(2)]
-                for i in suspects:
-                    ca, cb = R.calls[i], RB.calls[i]
-                    ta = {(c[i]["status"], norm(c[i]["text"])) if i in c else None for c in more_a}
-                    tb = {(c[i]["status"], norm(c[i]["text"])) if i in c else None for c in more_b}
-                    if ta == {(ca["status"], norm(ca["text"]))} and tb == {(cb["status"], norm(cb["text"]))}:
-                        sig = "C18/hrtime-interference/via=%s" % ca["name"]
-                        if sig not in {v.sig for v in vs}:
-                            vs.append(Violation(sig, "(%s %s) with :hrtime disabled returned %s under clock phase 100us "
-                                                "and %s under 900us" % (ca["name"], ca["args"], ca["text"], cb["text"])))
-                    else:
-                        R.probe("nondeterministic_value_ignored")
+            # A value that differs between the two clock phases is NOT reported: the phase also shifts allocation
+            # patterns, and address order leaks into numeric results ((compare buf1 buf2), hash, sort of reference
+            # types), so "differs with the phase" does not imply "read the clock" (DESIGN 7.14).  The deciding
+            # oracle for :hrtime is the monitor on the libc clock calls; the difference is only counted.
+            R.probe("phase_dependent_numeric_value", len(suspects))
         return res, vs
 
     def nontrivial(self, plan, res):
